@@ -187,13 +187,14 @@ theorem createTemplate_one_var (mc : UInt8) (hmc : isValidMetaVarByte mc = false
     (tr : List Bytes) (pre : Bytes) (k : Nat) (hk : 1 ≤ k ∧ k ≤ 3) (name post : Bytes)
     (hpre : mc ∉ pre) (hpost : mc ∉ post) (hne : name ≠ [])
     (hall : name.all isValidMetaVarByte = true)
+    (hrec : isRecognisedName tr name = true)
     (hhead : ∀ b, post.head? = some b → isValidMetaVarByte b = false) :
     createTemplate (pre ++ (List.replicate k mc ++ name ++ post)) mc tr =
       { fragments := [pre, post], vars := [(mkVar tr k name, getIndentAtOffset pre)] } := by
   unfold createTemplate
   rw [scan_literal_prefix mc tr pre [] [] _ hpre]
   simp only [List.nil_append]
-  rw [scan_var_step mc hmc tr pre pre k hk name post hne hall hhead]
+  rw [scan_var_step mc hmc tr pre pre k hk name post hne hall hrec hhead]
   have := scan_literal_prefix mc tr post (pre ++ List.replicate k mc ++ name) [] [] hpost
   simp only [List.append_nil, List.nil_append] at this
   rw [this]
@@ -203,12 +204,13 @@ theorem templateFix_one_var (source : Bytes) (m : Nat) (env : TEnv)
     (tr : List Bytes) (pre : Bytes) (k : Nat) (hk : 1 ≤ k ∧ k ≤ 3) (name post : Bytes)
     (hpre : (0x24 : UInt8) ∉ pre) (hpost : (0x24 : UInt8) ∉ post) (hne : name ≠ [])
     (hall : name.all isValidMetaVarByte = true)
+    (hrec : isRecognisedName tr name = true)
     (hhead : ∀ b, post.head? = some b → isValidMetaVarByte b = false) :
     templateFix source m env (pre ++ (List.replicate k 0x24 ++ name ++ post)) tr =
       shiftNL (getIndentAtOffset (source.take m))
         (pre ++ (maybeGetVar source env (mkVar tr k name) (getIndentAtOffset pre)).getD [] ++ post) := by
   unfold templateFix
-  rw [createTemplate_one_var 0x24 dollar_not_name tr pre k hk name post hpre hpost hne hall hhead,
+  rw [createTemplate_one_var 0x24 dollar_not_name tr pre k hk name post hpre hpost hne hall hrec hhead,
     generateReplacement_eq]
   simp only [replaceFixer, replaceFixerLoop]
   cases maybeGetVar source env (mkVar tr k name) (getIndentAtOffset pre) <;> simp
@@ -250,6 +252,7 @@ theorem countSigils_spec (mc : UInt8) (cs : Bytes) :
 theorem splitFirst_take (mc : UInt8) (tr : List Bytes) (cs : Bytes) (v : MetaVarExtract) (n : Nat)
     (h : splitFirstMetaVar (mc :: cs) mc tr = some (v, n)) :
     ∃ k name, 1 ≤ k ∧ k ≤ 3 ∧ name ≠ [] ∧ name.all isValidMetaVarByte = true ∧
+      isRecognisedName tr name = true ∧
       v = mkVar tr k name ∧ n = k + name.length ∧
       n ≤ (mc :: cs).length ∧ (mc :: cs).take n = spelling mc k name := by
   obtain ⟨h1, h3, hlen, htake, hmulti⟩ := countSigils_spec mc cs
@@ -261,13 +264,17 @@ theorem splitFirst_take (mc : UInt8) (tr : List Bytes) (cs : Bytes) (v : MetaVar
   split at h
   · cases h
   · next hnl =>
+    split at h
+    · cases h
+    next hrc =>
+    have hrec : isRecognisedName tr name = true := by simpa using hrc
     simp only [Option.some.injEq, Prod.mk.injEq] at h
     obtain ⟨hv, hn⟩ := h
     have hne : name ≠ [] := by intro h0; rw [h0] at hnl; simp at hnl
     have hall : name.all isValidMetaVarByte = true := by rw [← hname]; exact List.all_takeWhile
     have hnamelen : name.length ≤ ((mc :: cs).drop k).length := by
       rw [← hname]; exact takeWhile_length_le _ _
-    refine ⟨k, name, h1, h3, hne, hall, ?_, hn.symm, ?_, ?_⟩
+    refine ⟨k, name, h1, h3, hne, hall, hrec, ?_, hn.symm, ?_, ?_⟩
     · rw [← hv]
       unfold mkVar
       by_cases hk3 : k = 3
@@ -301,7 +308,8 @@ theorem scan_fragments (mc : UInt8) (tr : List Bytes) :
     ∀ (n : Nat) (rest : Bytes), rest.length ≤ n → ∀ (before frag : Bytes),
       ∃ sps : List (Nat × Bytes),
         (scanTemplate mc tr before frag 0 rest).2.map (·.1) = sps.map (fun p => mkVar tr p.1 p.2) ∧
-        (∀ p ∈ sps, 1 ≤ p.1 ∧ p.1 ≤ 3 ∧ p.2 ≠ [] ∧ p.2.all isValidMetaVarByte = true) ∧
+        (∀ p ∈ sps, 1 ≤ p.1 ∧ p.1 ≤ 3 ∧ p.2 ≠ [] ∧ p.2.all isValidMetaVarByte = true ∧
+            isRecognisedName tr p.2 = true) ∧
         frag ++ rest =
           interleave (scanTemplate mc tr before frag 0 rest).1 (sps.map fun p => spelling mc p.1 p.2) := by
   intro n
@@ -320,7 +328,8 @@ theorem scan_fragments (mc : UInt8) (tr : List Bytes) :
       have literal : ∃ sps : List (Nat × Bytes),
           (scanTemplate mc tr (before ++ [c]) (frag ++ [c]) 0 cs).2.map (·.1)
             = sps.map (fun p => mkVar tr p.1 p.2) ∧
-          (∀ p ∈ sps, 1 ≤ p.1 ∧ p.1 ≤ 3 ∧ p.2 ≠ [] ∧ p.2.all isValidMetaVarByte = true) ∧
+          (∀ p ∈ sps, 1 ≤ p.1 ∧ p.1 ≤ 3 ∧ p.2 ≠ [] ∧ p.2.all isValidMetaVarByte = true ∧
+            isRecognisedName tr p.2 = true) ∧
           frag ++ c :: cs =
             interleave (scanTemplate mc tr (before ++ [c]) (frag ++ [c]) 0 cs).1
               (sps.map fun p => spelling mc p.1 p.2) := by
@@ -334,7 +343,7 @@ theorem scan_fragments (mc : UInt8) (tr : List Bytes) :
           exact literal
         | some res =>
           obtain ⟨mv, skipped⟩ := res
-          obtain ⟨k, name, hk1, hk3, hne, hall, hv, hn, hle, htake⟩ := splitFirst_take c tr cs mv skipped hsp
+          obtain ⟨k, name, hk1, hk3, hne, hall, hrec, hv, hn, hle, htake⟩ := splitFirst_take c tr cs mv skipped hsp
           have hskip : skipped - 1 ≤ cs.length := by simp only [List.length_cons] at hle; omega
           simp only [scanTemplate, ↓reduceIte, hsp]
           rw [scan_skip c tr _ _ _ _ hskip]
@@ -350,7 +359,7 @@ theorem scan_fragments (mc : UInt8) (tr : List Bytes) :
           · intro p hp
             simp only [List.mem_cons] at hp
             rcases hp with rfl | hp
-            · exact ⟨hk1, hk3, hne, hall⟩
+            · exact ⟨hk1, hk3, hne, hall, hrec⟩
             · exact h2 p hp
           · simp only [List.map_cons, interleave]
             simp only [List.nil_append] at h3
